@@ -20,7 +20,8 @@ RULE = ('programs: kernel family K (k in 1..9, bias on/off), G_pit base programs
         'concat, flatten, depthwise, a fixed (excluded) first layer for full_cost); cost = dictionary of '
         'params / params_no_bias / ops / ops_no_bias (+ gap8_latency for 2D) and each spec alone; configurations as in C01; '
         'in every configuration get_cost(name) with discrete_cost=True is compared with the metric recomputed on export(), '
-        'full_cost off and on; non-trivial = (program, configuration, metric) with at least one pruned element')
+        'full_cost off and on; non-trivial = (program, configuration, metric) with at least one pruned element; the lattice of a program is walked on '
+        'one instance under one of three usage protocols rotating over the programs (plain / train_net_only() first / train switches off first)')
 ASSUMPTIONS = ['gap8 reference = the library formula evaluated on the exported layer\'s own hyper-parameters (kind generic/depthwise taken from the original layer)',
                'binarisation abstraction A1', 'programs with D4/D5/D24 structures are checked under C09']
 
@@ -111,6 +112,19 @@ def run_case(case, seed):
                                   'msg': f'PIT() raised {type(ctx["error"]).__name__}: {ctx["error"]}', 'case': base_case})
         return res
     pit, x, model = ctx['pit'], ctx['x'], ctx['model']
+    # usage protocol before the lattice is walked on this ONE instance (the cost is a function of the current mask values, whatever their
+    # requires_grad): plain / train_net_only() first (architecture frozen, weights fine-tuned) / the train switches turned off first
+    import hashlib
+    import json
+    proto = ('plain', 'train_net_only-first', 'train-switches-off-first')[int(hashlib.sha1(json.dumps([prog, fold], sort_keys=True).encode()).hexdigest(), 16) % 3]
+    if proto == 'train_net_only-first':
+        pit.train_net_only()
+    elif proto == 'train-switches-off-first':
+        pit.train_features = False
+        pit.train_rf = False
+        pit.train_dilation = False
+    if proto != 'plain':
+        ssig = ssig + '/' + proto
     pit.eval()
     searchable = {n for n, _ in D.pit_layers(pit)}
     kinds = {}
@@ -235,7 +249,7 @@ def run_case(case, seed):
             except Exception as e:
                 add('cost-raises', f'cost-raises/single/{name}', f'{type(e).__name__}: {str(e)[:200]}', D.describe(els, cfgs[-1]))
     res['outcomes'] = sorted(res['outcomes'])
-    res['sample'] = {'prog': prog, 'fold_bn': fold, 'metrics': sorted(specs), 'n_configs': len(cfgs), 'complete_lattice': complete,
+    res['sample'] = {'prog': prog, 'fold_bn': fold, 'protocol': proto, 'metrics': sorted(specs), 'n_configs': len(cfgs), 'complete_lattice': complete,
                      'last_cfg': D.describe(els, cfgs[-1]) if cfgs else None}
     return res
 
